@@ -477,6 +477,24 @@ func (ww *WW) StepMelt() {
 	_ = err
 }
 
+// StepReload: the wallet program exits and is started again on the same directory (what every
+// invocation of a command-line wallet does): everything it knows must come back from its storage.
+func (ww *WW) StepReload() {
+	w := ww.pickWallet()
+	n := ww.node(w)
+	if n == nil || n.W == nil {
+		return
+	}
+	ww.op("w.reload")
+	ww.rc.Quietly(func() {
+		ww.W.StopWallet(w)
+		if _, err := ww.W.StartWallet(w, mintNameOfURL(n.Mint)); err != nil {
+			ww.W.Book.Violate("W.reload_failed", "reload", "wallet does not load again after a clean shutdown: %v", err)
+		}
+	})
+	ww.rc.S.Probe("w_reload")
+}
+
 // StepClock: time passes (quotes expire; payments in flight are not affected by that).
 func (ww *WW) StepClock() {
 	d := []time.Duration{30 * time.Second, 11 * time.Minute, 2 * time.Hour}[ww.T.Choose("wclock.d", 3)]
